@@ -83,7 +83,7 @@ class Triangle(BaseMagnet):
     """
 
     _field_func = staticmethod(BHJM_triangle)
-    _field_func_kwargs_ndim = {"polarization": 2, "vertices": 2}
+    _field_func_kwargs_ndim = {"polarization": 2, "vertices": 3}
     get_trace = make_Triangle
     _style_class = TriangleStyle
 
